@@ -127,8 +127,8 @@ def predicate_leaves(t, out, ors):
     if t[0] == "cmp" and t[1] in FLIP:
         out.append((t[1], t[2], t[3]))
         return
-    if t[0] == "unop" and t[1] in ("~", "not"):
-        ors.append("negation")
+    if (t[0] == "unop" and t[1] in ("~", "not")) or (t[0] == "call" and callee(t) in ("numpy.logical_not", "numpy.invert", "numpy.bitwise_not")):
+        out.append(("?", t, None))      # a negated sub-formula (De Morgan forms) is not modelled: undecided, never a violation
         return
     out.append(("?", t, None))
 
@@ -144,7 +144,8 @@ def r3_inside(ctx):
             continue
         leaves, ors = [], []
         predicate_leaves(p.value, leaves, ors)
-        ctx.check("R3", qn + "|conjunction-only", False if ors else True, "the four tests are combined by conjunction only",
+        negated = any(op_ == "?" for op_, _a, _b in leaves)
+        ctx.check("R3", qn + "|conjunction-only", (False if ors else True) if not negated else None, "the four tests are combined by conjunction only",
                   bad="the tests are combined with %s: points outside one interval are accepted" % ors, fn=qn)
         ck = roles.Checker(ctx.pkg, p, qn)
         got = set()
